@@ -138,6 +138,8 @@ def run(cx: Cx):
     from .common import check_result_fresh
     check_result_fresh(cx, fn.qualname)
     check_pure(cx, fn.qualname)
+    from .common import check_overrides_forward
+    check_overrides_forward(cx, ENV + 'SpaceWorld', ['get_agents_at'])
     # seam clause
     names = {s.name for s in reads if isinstance(s, Attr) and s.base == self_s}
     if 'wrap_env' in names and names & {'width', 'height', 'depth'}:
